@@ -146,6 +146,14 @@ def _observe(scn, sched, pairs, aio):
             str(job)
         except Exception as e:  # noqa: BLE001
             obs["jobstr_err"] = f"str(job) [{spec['kind']}]: {type(e).__name__}: {e}"
+    # repr(): the other rendering of the same population (one "…job.Job(" item per registered job)
+    try:
+        rp = repr(sched)
+        obs["repr_items"] = rp.count(".job.Job(" if aio else "scheduler.Job(")
+        for job, spec in pairs:
+            repr(job)
+    except Exception as e:  # noqa: BLE001
+        obs["repr_err"] = f"repr: {type(e).__name__}: {e}"
     # expected cells from what job._str() delivers (sorted by due instant)
     try:
         insts = [core.inst_of(p[0].datetime) for p in pairs]
@@ -258,6 +266,10 @@ def specs(r):
         qs.append(("spec eq 0 1", {"what": "str(scheduler) raised", "err": ob["err"]}))
     if ob.get("jobstr_err"):
         qs.append(("spec eq 0 1", {"what": "str(job) raised", "err": ob["jobstr_err"]}))
+    if ob.get("repr_err"):
+        qs.append(("spec eq 0 1", {"what": "repr(scheduler) / repr(job) raised", "err": ob["repr_err"]}))
+    elif "repr_items" in ob:
+        qs.append((f"spec eq {ob['repr_items']} {ob['n']}", {"what": "repr(scheduler) lists every registered job once"}))
     if ob.get("table") is not None:
         n = len(ob["rows"])
         qs.append((f"spec eq {ob['body_len']} {ob['W'] * (n + 2)}", {"what": "row_width: table is n+2 chunks of the header-row width", "rows": n}))
